@@ -78,8 +78,7 @@ def std_plan(rng, its):
 
 def run(tier):
     C = Check('C06', tier)
-    C.prove('Properties/C06.v')
-    C.cov['tie']['eo_writer.py, eo_reader.py'] = 'correspondence-only (hand-written models)'
+    C.prove('Properties/C06.v', units=['G_eo_numeric_limits', 'G_number_encoding_utils', 'G_string_encoding_utils', 'G_eo_reader', 'G_eo_writer'], bridges={'Bridge/B_reader.v': ['G_eo_numeric_limits', 'G_number_encoding_utils', 'G_string_encoding_utils', 'G_eo_reader'], 'Bridge/B_writer.v': ['G_eo_numeric_limits', 'G_number_encoding_utils', 'G_string_encoding_utils', 'G_eo_writer']})
     wmod, rmod = load_leaf(C.scratch.src, 'eolib.data.eo_writer', 'eolib.data.eo_reader')
     rng = C.rng
     cases = []
